@@ -1,7 +1,79 @@
 import Driver.Util
-/-! `drv_x86`: stub, to be filled in -/
+import MythVerif.Model.X86
+import MythVerif.Generated.CtxAsm
+/-!
+`drv_x86`: executes the REGENERATED context-switch instruction lists (`Generated/CtxAsm.lean`)
+through the semantics of `Model/X86.lean`, on the machine states the hardware bench
+(`harness/ctx_probe.c -DCTXP_BENCH`) ran them on.
+
+  input  `<S> <K> <label> <ret0> <ret1> <16 regs before S> <16 regs before K> <n> (<addr> <val>)*n`
+  output `<pc0> <16 regs after S.save ++ S.switch> <pc1> <16 regs after K.switch ++ S.restore> <val>*n`
+
+`S ∈ {swap, swapWc}` is the template that suspends, `K ∈ {set, setWc, swap, swapWc}` the one that
+resumes it.  The callee is the bench's `ctxp_bench_cb`.
+-/
 namespace Driver.X86
+open MythVerif.X86 MythVerif.Gen.Ctx
+
+def regIdx : List Reg := gprs
+
+def idxOf (r : Reg) : Nat := (regIdx.findIdx? (· == r)).getD 99
+
+/-- `ctxp_bench_cb`: two stores into its own frame, caller-saved registers destroyed, `ret` -/
+def benchCallee (m : M) : M :=
+  let sp := m.reg .rsp
+  let m := setMem (setMem m (sp - 8) 0x777) (sp - 64) 0x888
+  let m := [(Reg.rax, 0x1000), (.rcx, 0x1001), (.rdx, 0x1002), (.rsi, 0x1006), (.rdi, 0x1007),
+            (.r8, 0x1008), (.r9, 0x1009), (.r10, 0x100a), (.r11, 0x100b)].foldl
+            (fun (m : M) (p : Reg × Int) => setReg m p.1 p.2) m
+  setReg m .rsp (sp + 8)
+
+def suspendOf : String → Option (List Instr × List Instr × List Instr)
+  | "swap" => some (swapSave, swapSwitch, swapRestore)
+  | "swapWc" => some (swapWcSave, swapWcSwitch, swapWcRestore)
+  | _ => none
+
+def resumeOf : String → Option (List Instr)
+  | "set" => some setSwitch
+  | "setWc" => some setWcSwitch
+  | "swap" => some swapSwitch
+  | "swapWc" => some swapWcSwitch
+  | _ => none
+
+def regFile (vals : List Int) : Reg → Int := fun r => vals.getD (idxOf r) 0
+
+def showRegs (m : M) : List String := regIdx.map (fun r => toString (m.reg r))
+
+def step (line : String) : String :=
+  match words line with
+  | s :: k :: rest =>
+    match suspendOf s, resumeOf k, rest.mapM (fun (w : String) => w.toInt?) with
+    | some (sv, sw, rs), some ksw, some (label :: ret0 :: ret1 :: nums) =>
+      let r0 := nums.take 16
+      let r1 := (nums.drop 16).take 16
+      let n := ((nums.drop 32).headD 0).toNat
+      let pairs := nums.drop 33
+      let addrs := (List.range n).map (fun i => pairs.getD (2 * i) 0)
+      let init : Int → Int := fun a =>
+        ((List.range n).find? (fun i => pairs.getD (2 * i) 0 == a)).elim 0 (fun i => pairs.getD (2 * i + 1) 0)
+      let env0 : Env := { label := fun _ => label, retAddr := ret0, callee := benchCallee }
+      let env1 : Env := { label := fun _ => label, retAddr := ret1, callee := benchCallee }
+      let m0 : M := { reg := regFile r0, mem := init, pc := 0 }
+      let mA := exec env0 m0 (sv ++ sw)
+      let m1 : M := { reg := regFile r1, mem := mA.mem, pc := mA.pc }
+      let mB := exec env1 m1 ksw
+      let mC := exec env0 mB rs
+      joinSp ([toString mA.pc] ++ showRegs mA ++ [toString mB.pc] ++ showRegs mC ++
+              addrs.map (fun a => toString (mC.mem a)))
+    | _, _, _ => "ERROR bad line"
+  | _ => "ERROR bad line"
+
 def run (_args : List String) : IO UInt32 := do
-  IO.eprintln "drv_x86: not implemented"
-  return 2
+  let stdin ← IO.getStdin
+  let stdout ← IO.getStdout
+  let _ ← forLines stdin () (fun _ line => do
+    if line.trimAscii.toString.isEmpty then return ()
+    stdout.putStrLn (step line))
+  return 0
+
 end Driver.X86
